@@ -403,7 +403,7 @@ class _ObjAlloc(object):
               'extend by one full cell on both sides: no atom of the new cell is outside the searched supercell', replay=_replay, timeout_ms=30000)
 def rotate_range(E, L):
     block, info = _extract_range(L, SYSF, 'rotate', _assign_to('corners'), _assign_to('c_mults'))
-    E.prove('rotate.range.block_found', info['last_line'] > info['first_line'])
+    E.shape('rotate.range.block_found', info['last_line'] > info['first_line'])
     mod = L.load(SYSF)
     U = E.ints('u', (3, 3))
     s = E.reals('s', (3,))
